@@ -434,6 +434,8 @@ fn runtime_cases() -> Vec<Case> {
         // faults raised by instructions that carry no span of their own
         "{% autoescape 'bogus' %}x{% endautoescape %}", "{% set q = not undefined_var %}", "{% set q = 1 if undefined_var %}", "{% for i in undefined_var %}{% endfor %}",
         "{% with a = undefined_var.x %}{% endwith %}", "{% set q = xs|sort(attribute=undefined_var.y) %}",
+        // the same kind of instruction after a nested sub-expression that has a span of its own
+        "{% autoescape xs.nope %}x{% endautoescape %}", "{% set q = not xs.nope %}", "{% set q = 1 if xs.nope %}", "{% with a = not xs[9] %}{% endwith %}", "{% filter indent(xs.nope) %}x{% endfilter %}",
     ];
     // wrappers: (label, templates with {F} on a line of its own, main, target)
     let wrappers: Vec<(&str, Vec<(&str, &str)>, &str, &str)> = vec![
@@ -463,6 +465,15 @@ fn runtime_cases() -> Vec<Case> {
         ("after_crlf_lines", vec![("main", "a\r\nb\r\n{{ 'c\r\nd' }}\r\n{F}")], "main", "main"),
         ("after_multiline_string_in_macro_args", vec![("main", "{% macro mm(a) %}{{ a }}{{ caller() if caller is defined }}{% endmacro %}{{ mm('1\n2\n3') }}\n{% call mm('x\ny') %}{% endcall %}\n{F}")], "main", "main"),
         ("in_included_after_multiline_string", vec![("main", "{{ 'a\nb' }}{% include 'inc' %}"), ("inc", "{{ 'p\nq\nr' }}\n{F}")], "main", "inc"),
+        // earlier statements of the same template (each leaves its own traces in the code generator)
+        ("after_set_namespace_attr", vec![("main", "{% set ns = namespace() %}\n{% set ns.a = 1 %}\n\n{F}")], "main", "main"),
+        ("after_set_namespace_attr_same_line", vec![("main", "{% set ns = namespace() %}{% set ns.a = [1,\n 2] %}{% set ns.b = ns.a %} {F}")], "main", "main"),
+        ("after_set_namespace_attr_in_block", vec![("main", "{% set ns = namespace() %}{% set ns.a = 1 %}\n{% block b %}\nq\n{F}\n{% endblock %}")], "main", "main"),
+        ("after_unpacking_set_and_loop", vec![("main", "{% set a, (b, c) = 1, (2, 3) %}\n{% for i, j in [(1, 2)] %}{{ i }}{% endfor %}\n{F}")], "main", "main"),
+        ("after_macro_and_call", vec![("main", "{% macro mm(a, b=1) %}{{ a }}{{ caller() }}{% endmacro %}\n{% call mm(1) %}x{% endcall %}\n\n{F}")], "main", "main"),
+        ("after_filter_and_set_block", vec![("main", "{% filter upper|trim %}x{% endfilter %}{% set c | upper %}y{% endset %}\n{F}")], "main", "main"),
+        ("after_nested_expression", vec![("main", "{{ (xs[0] + x)|default(3, true) is defined and xs|map('string')|join(', ')|length > 2 }}\n{{ [1, (2, 3), {'k': -x ** 2}] }}\n{F}")], "main", "main"),
+        ("after_if_elif_chain", vec![("main", "{% if not xs %}a{% elif xs[0] > 5 %}b{% else %}{{ 1 if x }}{% endif %}\n\n\n{F}")], "main", "main"),
         ("three_level", vec![("main", "{% extends 'mid' %}"), ("mid", "{% extends 'base' %}\n{% block b %}\n{{ super() }}\n{% endblock %}"), ("base", "{% block b %}\n\n\n{F}{% endblock %}")], "main", "base"),
     ];
     let mut out = vec![];
@@ -521,7 +532,7 @@ pub fn main(args: Args) -> i32 {
             level: "exploration",
             tier: args.tier,
             seed: args.seed,
-            rule: "syntax errors: a corpus of 29 hand-written templates covering every tag and literal form plus every 13th depth-1 generator program, truncated at every character boundary (also with multi-byte text in front) and with 12 stray tokens inserted at every (quick: every other) boundary, plus 37 classic faults; run-time errors: 27 failing constructs (six of them raised by instructions without a span of their own) x 26 placements (plain, for, if/else, with, macro, call block, set block, filter block, autoescape, child block, parent block, super, include, include in loop, imported macro, import top level, recursive loop, three-level inheritance, and after multi-line string literals / tags / comments / raw blocks / CRLF lines) with the expected template and line computed from the placement; every failing case is re-run with 1/17/65 533 (thorough also 2) filler lines above (LF and CRLF) and with 3-byte, multi-byte and 70 000-byte prefixes; oracle: located name+line inside the named source for the error and every located cause, kind/detail/name unchanged and line shifted by exactly N, ranges in bounds, on char boundaries, equal to the named template's source and shifted by the inserted byte count, all five formatting forms succeed; residue: every failing case is re-run on a fresh OS thread after each of 12 prior templates (one per statement kind, three failing to compile half way) was compiled on that thread with its construct on the failing line, and the full location (every chain entry, lines, ranges) must equal the one from a fresh thread without a prior. distinct non-trivial = distinct failing template sets".into(),
+            rule: "syntax errors: a corpus of 29 hand-written templates covering every tag and literal form plus every 13th depth-1 generator program, truncated at every character boundary (also with multi-byte text in front) and with 12 stray tokens inserted at every (quick: every other) boundary, plus 37 classic faults; run-time errors: 32 failing constructs (eleven of them raised by instructions without a span of their own, five of those after a nested sub-expression) x 34 placements (plain, for, if/else, with, macro, call block, set block, filter block, autoescape, child block, parent block, super, include, include in loop, imported macro, import top level, recursive loop, three-level inheritance, after earlier statements of the same template (namespace attribute assignments, unpacking, macros and call blocks, filter and set blocks, nested expressions, if chains), and after multi-line string literals / tags / comments / raw blocks / CRLF lines) with the expected template and line computed from the placement; every failing case is re-run with 1/17/65 533 (thorough also 2) filler lines above (LF and CRLF) and with 3-byte, multi-byte and 70 000-byte prefixes; oracle: located name+line inside the named source for the error and every located cause, kind/detail/name unchanged and line shifted by exactly N, ranges in bounds, on char boundaries, equal to the named template's source and shifted by the inserted byte count, all five formatting forms succeed; residue: every failing case is re-run on a fresh OS thread after each of 12 prior templates (one per statement kind, three failing to compile half way) was compiled on that thread with its construct on the failing line, and the full location (every chain entry, lines, ranges) must equal the one from a fresh thread without a prior. distinct non-trivial = distinct failing template sets".into(),
             exhaustive: true,
             bound: json!({"vertical": [1, 2, 17, 65533], "horizontal": [3, 5, 70000]}),
             assumptions: vec!["Strict undefined mode so that undefined reads are errors".into(), "cases that compile and render successfully are skipped (counted in the outcome histogram)".into()],
